@@ -168,12 +168,24 @@ pub fn json_diff(a: &Value, b: &Value, path: &mut String) -> Option<String> {
         }
     }
 }
-pub fn first_diff<T: serde::Serialize>(a: &T, b: &T) -> String {
+pub fn first_diff<T: serde::Serialize + std::fmt::Debug>(a: &T, b: &T) -> String {
     let (x, y) = (serde_json::to_value(a), serde_json::to_value(b));
-    match (x, y) {
-        (Ok(x), Ok(y)) => json_diff(&x, &y, &mut String::new()).unwrap_or_else(|| "(not visible in the serialised form)".into()),
-        _ => "(unserialisable)".into(),
+    let j = match (x, y) {
+        (Ok(x), Ok(y)) => json_diff(&x, &y, &mut String::new()),
+        _ => None,
+    };
+    j.unwrap_or_else(|| debug_diff(a, b))
+}
+/// Fallback for fields the serialised form does not show: first differing line of the pretty Debug form
+pub fn debug_diff<T: std::fmt::Debug>(a: &T, b: &T) -> String {
+    let (x, y) = (format!("{:#?}", a), format!("{:#?}", b));
+    for (l, m) in x.lines().zip(y.lines()) {
+        if l != m {
+            let field = l.trim().split(':').next().unwrap_or("").trim();
+            return format!("unserialised-field:{}", field);
+        }
     }
+    "(no visible difference)".into()
 }
 /// JSON artefact of a library, bounded in size
 pub fn lib_artefact(lib: &GdsLibrary) -> Value {
